@@ -18,7 +18,7 @@ MANIFEST = dict(
          "after; the library's own lifecycle lines are not part of the property and are ignored). TLC checks LoggerRule, TraceInherited and LineSane over all "
          "trees/positions within the bounds, in the creating task and a spawned task; every edge is replayed into the "
          "real library (and random programs of 4 tasks / 10 scopes are validated by a generated trace module) with "
-         "capturing handlers on the supplied loggers and on the root logger.",
+         "capturing handlers on the supplied loggers and on the root logger. Also: scope objects made in one place and entered in another (Make / EnterMade), the empty string as trace id (either reading, nothing else), logging reconfigured around scope creation.",
     technique="TLA+ spec + TLC exhaustive model checking; edge-complete graph replay into the implementation with "
               "capturing log handlers",
     design="5/C19")
